@@ -255,7 +255,7 @@ func newDecls() *Decls {
 		consts: map[string]string{}, lits: map[string]string{}, structOf: map[string]*types.Struct{}, typeTags: map[string]int{}}
 	d.sorts[sStr] = true
 	d.sorts[sIface] = true
-	d.declFun("slen", "(declare-fun slen (Str) Int)")
+	d.declFun("slen64", "(declare-fun slen64 (Str) (_ BitVec 64))")
 	d.consts["nilStr"] = sStr
 	d.constOrd = append(d.constOrd, "nilStr")
 	d.consts["emptyStr"] = sStr
@@ -263,7 +263,7 @@ func newDecls() *Decls {
 	d.consts["nilI"] = sIface
 	d.constOrd = append(d.constOrd, "nilI")
 	d.declFun("tagof", "(declare-fun tagof (Iface) Int)")
-	d.axioms = append(d.axioms, "(= (slen nilStr) 0)", "(= (slen emptyStr) 0)")
+	d.axioms = append(d.axioms, "(= (slen64 nilStr) (_ bv0 64))", "(= (slen64 emptyStr) (_ bv0 64))")
 	return d
 }
 
@@ -348,7 +348,7 @@ func (d *Decls) litAxioms() []string {
 		names := []string{"nilStr", "emptyStr"}
 		for _, c := range d.litOrder {
 			names = append(names, d.lits[c])
-			out = append(out, fmt.Sprintf("(= (slen %s) %d)", d.lits[c], len(c)))
+			out = append(out, fmt.Sprintf("(= (slen64 %s) (_ bv%d 64))", d.lits[c], len(c)))
 		}
 		out = append(out, "(distinct "+strings.Join(names, " ")+")")
 	} else {
